@@ -229,7 +229,7 @@ def check_c05(ctx):
         for s in range(1, n):
             for t in (0, 1):
                 cfgs.append(mkcfg("Multistage", max_n=n, ram=0, disk=s, traj=t))
-    cfgs += boxes.revolve_family(14 if q else 30, (1, 2, 3, 4, 5), boxes.COSTS8 if q else boxes.COSTS12,
+    cfgs += boxes.revolve_family(14 if q else 30, (1, 2, 3, 4, 5), (boxes.COSTS8 if q else boxes.COSTS12) + boxes.FRAC,
                                  classes=("Revolve",))
     viols, cov = _steps_check(ctx, "C05", "bin", cfgs, sn, tn, hn, 0, dense_n=dense_n)
     cov["planner_entries_scanned"] = scanned
@@ -280,7 +280,10 @@ def check_c06(ctx):
 
 def check_c07(ctx):
     q = ctx.tier == "quick"
-    costs = boxes.COSTS6 if q else (boxes.COSTS12 + boxes.FRAC)
+    costs = (boxes.COSTS8 + boxes.FRAC) if q else (boxes.COSTS12 + boxes.FRAC)
+    # the search box shrinks for the vectors added later (one of wd/rd zero: n - 1; fractional: n - 3):
+    # their finer cost granularity multiplies the distinct search states
+    shrink = {c: (0 if c in boxes.COSTS6 else 3 if len(c) > 4 else 1) for c in costs}
     if q:
         hbox = dict(nmax=8, cms=(1, 2), cds=(0, 1, 2))
         dn, rn = 9, 11
@@ -292,13 +295,13 @@ def check_c07(ctx):
     for n in range(1, max(hbox["nmax"], dn, rn) + 1):
         for ci, c in enumerate(costs):
             for cm in (1, 2, 3):
-                if n <= hbox["nmax"] and cm in hbox["cms"]:
+                if n <= hbox["nmax"] - shrink[c] and cm in hbox["cms"]:
                     for cd in hbox["cds"]:
                         cfgs.append(mkcfg("HRevolve", max_n=n, ram=cm, disk=cd, **boxes.cv(c)))
-                if n <= dn and cm <= 2:
+                if n <= dn - shrink[c] and cm <= 2:
                     cfgs.append(mkcfg("DiskRevolve", max_n=n, ram=cm, **boxes.cv(c)))
                     cfgs.append(mkcfg("PeriodicDiskRevolve", max_n=n, ram=cm, **boxes.cv(c)))
-                if n <= rn:
+                if n <= rn - shrink[c]:
                     cfgs.append(mkcfg("Revolve", max_n=n, ram=cm, **boxes.cv(c)))
     # larger box for the order relations only
     big_n = 20 if q else 40
@@ -316,7 +319,7 @@ def check_c07(ctx):
     traces = record.record_many(cfgs)
     verdicts = fw.validate(ctx, traces)
     fw.bind_totals(traces, verdicts)
-    costidx = {c: i for i, c in enumerate(costs)}
+    costidx = {(c if len(c) == 4 else c): i for i, c in enumerate(costs)}
     viols, insts, owner, order_claims, order_owner = [], [], [], [], []
     skipped = 0
     for t, v in zip(traces, verdicts):
@@ -334,12 +337,13 @@ def check_c07(ctx):
                              "cost": cost})
         order_owner.append(t)
         inst = None
+        sh = shrink[costs[cvi]]
         if n >= 2:
-            if t["cls"] == "HRevolve" and n <= hbox["nmax"] and p["ram"] in hbox["cms"] and p["disk"] in hbox["cds"]:
+            if t["cls"] == "HRevolve" and n <= hbox["nmax"] - sh and p["ram"] in hbox["cms"] and p["disk"] in hbox["cds"]:
                 inst = dict(cm=p["ram"], cd=p["disk"], oneread=0)
-            elif t["cls"] == "DiskRevolve" and n <= dn and p["ram"] <= 2:
+            elif t["cls"] == "DiskRevolve" and n <= dn - sh and p["ram"] <= 2:
                 inst = dict(cm=p["ram"], cd=-1, oneread=1)
-            elif t["cls"] == "Revolve" and n <= rn:
+            elif t["cls"] == "Revolve" and n <= rn - sh:
                 inst = dict(cm=p["ram"], cd=0, oneread=0)
         if inst:
             inst.update(n=n, uf=p["uf"], wd=p["wd"], rd=p["rd"], deps=0, claim=cost)
